@@ -384,8 +384,8 @@ Definition db_step (cfg : defects) (d : db) (o : op) : db * obsx :=
   end.
 
 Definition as_is : defects :=
-  {| d_replay_shadow := false; d_clear_replay := false; d_iter_max := false; d_id_reuse := true;
-     d_double_close := false; d_sizeof_untracked := true; d_seqno_journal := false |}.
+  {| d_replay_shadow := false; d_clear_replay := false; d_iter_max := false; d_id_reuse := false;
+     d_double_close := false; d_sizeof_untracked := false; d_seqno_journal := false |}.
 Definition ideal : defects :=
   {| d_replay_shadow := false; d_clear_replay := false; d_iter_max := false; d_id_reuse := false;
      d_double_close := false; d_sizeof_untracked := false; d_seqno_journal := false |}.
